@@ -45,7 +45,7 @@ def generate(rng, seed, index, tier):
         if rng.random() < 0.2:
             plist.append("default")
             continue
-        kw = gen.gen_params(rng, problems[0], starts[0][0], starts[0][1], p_knob=0.5, scaling=False, reporting=True)
+        kw = gen.gen_params(rng, problems[0], starts[0][0], starts[0][1], p_knob=0.5, scaling=False, reporting=True, numeric=0.2)
         if rng.random() < 0.5:
             kw["scaling_type"] = "Custom"  # weights are per problem: filled in per solver below
         kw["iteration_limit"] = int(rng.choice([3, 8, 25, 60]))
@@ -83,6 +83,13 @@ def generate(rng, seed, index, tier):
             else:
                 scaling = {"var": rng.integers(-3, 4, size=problems[pid]["n"]).tolist(), "cons": rng.integers(-3, 4, size=problems[pid]["m"]).tolist(), "obj": int(rng.integers(-2, 3))}
         solvers.append({"sid": sid, "pid": pid, "prm": prm, "scaling": scaling})
+    if rng.random() < 0.25:
+        # the other solver class of the package takes part in the history as well (own parameters)
+        ok = [i for i, p in enumerate(problems) if p["family"] in ("qp", "nlp", "convex-qp")]
+        if ok:
+            plist.append({"iteration_limit": int(rng.choice([3, 10])), "display_interval": 1e18})
+            solvers.append({"sid": nsolv, "pid": ok[int(rng.integers(0, len(ok)))], "prm": len(plist) - 1, "scaling": None, "kind": "integration"})
+            nsolv += 1
     made = set()
     nops = int(rng.integers(2, 8))
     last = None
@@ -134,7 +141,7 @@ def _op_world(world, op, solver_def, shift=0.0):
         "clock": dict(op.get("clock") or {}, t0=gen.T0 + shift),
         "obs": op.get("obs", {}),
         "faults": op.get("faults", []),
-        "solver": "homotopy",
+        "solver": solver_def.get("kind", "homotopy"),
     }
 
 
@@ -212,6 +219,8 @@ def case(world):
         tw = twins[i]
         dig = ex.traj_digest()
         bump("op." + ex.outcome.split("@")[0])
+        if d.get("kind") == "integration":
+            bump("ops.integration_solver")
         if i > 0 and prev_outcome_abort:
             bump("ops.after_abort")
         if sid in prev_by_solver and prev_by_solver[sid] == (repr(op["x0"]), repr(op["y0"]), repr(op.get("clock")), repr(op.get("faults")), repr(op.get("obs"))):
